@@ -342,6 +342,40 @@ def cmd_setup(args):
     return 0
 
 
+def cmd_manifest(args):
+    import importlib.util
+    sp = importlib.util.spec_from_file_location('claims', os.path.join(core.VERIF, 'claims.py'))
+    cl = importlib.util.module_from_spec(sp)
+    sp.loader.exec_module(cl)
+    props = [json.loads(l)['id'] for l in open(os.path.join(core.VERIF, 'properties.jsonl'))]
+    hooks_path = os.path.join(core.VERIF, 'hooks.json')
+    hooks = json.load(open(hooks_path)) if os.path.exists(hooks_path) else {
+        'guard': 'COLVARS_VERIF', 'enable': 'replay drivers compile /repo/src with -DCOLVARS_VERIF (no hook commits yet)',
+        'baseline_off_cmd': 'cmake --build /repo/_build && ctest --test-dir /repo/_build -j8 --timeout 900',
+        'source_commits': [], 'add_only': True}
+    m = {'version': 1, 'setup_cmd': './cv setup', 'hooks': hooks,
+         'engines': [{'name': 'cv', 'path': '/verif/cv', 'serves_properties': sorted(cl.CLAIMS.keys()),
+                      'kind_free_text': 'contract-based deductive verification: verbatim C++ bodies sliced from /repo/src each run, C-declared CBMC code contracts enforced per function with goto-instrument --dfcc, cbmc (SAT, cvc5, z3) discharging every obligation; native replay of counterexamples on the real code'}],
+         'checks': [], 'not_applicable': []}
+    for p in props:
+        if p in cl.CLAIMS:
+            c = cl.CLAIMS[p]
+            m['checks'].append({
+                'property_id': p, 'quick_cmd': './cv check %s --tier quick' % p,
+                'thorough_cmd': './cv check %s --tier thorough' % p,
+                'evidence_file': '/verif/evidence/%s.json' % p,
+                'replay_cmd_template': './cv replay {path}', 'engine': 'cv',
+                'level_claimed': {'category': 'proof', 'text': c['text'], 'design_ref': c.get('design_ref', '')},
+                'level_note': c['note'],
+                'technique': c.get('technique', 'CBMC code contracts (requires/ensures/assigns, loop invariants) enforced with goto-instrument --dfcc on verbatim function bodies; bounded unwinding stand-ins labelled'),
+            })
+        else:
+            m['not_applicable'].append({'property_id': p, 'reason': cl.NOT_APPLICABLE.get(p, cl.NA_DEFAULT)})
+    json.dump(m, open(os.path.join(core.VERIF, 'MANIFEST.json'), 'w'), indent=1)
+    print('MANIFEST.json: %d checks, %d not_applicable' % (len(m['checks']), len(m['not_applicable'])))
+    return 0
+
+
 def main(argv):
     if not argv:
         log(__doc__)
@@ -361,6 +395,8 @@ def main(argv):
             return cmd_mutants(argv[1:])
         if c == 'check':
             return cmd_check(argv[1:])
+        if c == 'manifest':
+            return cmd_manifest(argv[1:])
         if c == 'setup':
             return cmd_setup(argv[1:])
         if c == 'replay':
